@@ -1,6 +1,6 @@
 """C16 - SESAME reliability and clarity verdicts match the 2004 guideline.
 
-E2.  A root is (grid, f0, second peak, search range); below every root the
+E2.  A root is (grid, f0, second peak, search range, order of the two limits); below every root the
 configuration space (peak height, left / right flank shape, standard-deviation
 curve, window length, window count, sigma_f) is enumerated by deviation count
 (or as a full product), every case is executed on the real
@@ -20,6 +20,8 @@ Violation keys
   C16:clarity:other-input:raises, C16:reliability:any-input:raises   any other exception
   C16:reliability:criterion-ii:monotone-windows, C16:clarity:criterion-v:monotone-sigma-f
   C16:<fn>:malformed-return, C16:harness:vacuous-enumeration
+  C16:<fn>:reversed-range:<any of the above>  the same oracles when the search range was given as (high, low);
+                                             the guideline's verdicts do not depend on the order of the limits
 """
 import contextlib
 import io
@@ -39,11 +41,14 @@ ROMAN = ("i", "ii", "iii", "iv", "v", "vi")
 # ---------------------------------------------------------------------------
 # alphabets
 
-GRID_NAMES = ["geo13", "lin16", "geo103", "lintie", "geo5", "lin08"]
+GRID_NAMES = ["geo13", "lin16", "geo103", "lintie", "geo5", "lin08", "edge5"]
 F0S = [1.0, 0.1, 0.2, 0.3, 0.5, 0.7, 1.5, 2.0, 3.0]
 SECONDS = ["none", "right2", "left2"]
 RANGES = ["none", "wide", "narrow", "lo_only", "hi_only", "tie",
-          "excl_open", "excl_closed", "at_peak"]
+          "excl_open", "excl_closed", "at_peak", "adj_lo", "adj_hi"]
+# the two limits in the order (low, high) or (high, low); only ranges with two numbers can be turned round
+ORDERS = ["asc", "desc"]
+TWO_SIDED = ("wide", "narrow", "tie", "excl_closed", "adj_lo", "adj_hi")
 
 A0S = [4.0, 2.5, 2.0, 1.5]
 # shelf: beside the peak the curve comes down by one part in 1e7 only and stays there (a peak whose prominence
@@ -51,8 +56,14 @@ A0S = [4.0, 2.5, 2.0, 1.5]
 SIDES = ["low", "one", "high", "drop_in", "drop_out", "shelf"]
 STD_CONST = {"c0.1": 0.1, "c1.5": math.log(1.5), "c1.7": math.log(1.7), "c1.9": math.log(1.9),
              "c2.2": math.log(2.2), "c2.8": math.log(2.8), "c3.5": math.log(3.5)}
+# iv_<p|m>_<lo|hi>_<in|out>: the peak of the mean*sigma_A (p) or mean/sigma_A (m) curve is moved to the sample
+# nearest to the 0.95 f0 (lo) / 1.05 f0 (hi) edge of the band of criterion iv) that is still inside (in) or already
+# outside (out) of it; the other curve keeps its peak at f0
+IV_STDS = [f"iv_{c}_{side}_{io}" for c in "pm" for side in ("lo", "hi") for io in ("in", "out")]
 STDS = list(STD_CONST) + ["b_f0", "b_lo_in", "b_lo_out", "b_hi_in", "b_hi_out",
-                          "t2_small", "t2_big", "tup_big", "tneg_big"]
+                          "t2_small", "t2_big", "tup_big", "tneg_big"] + IV_STDS
+IV_FLOOR = 0.1                  # standard deviation beside the moved peak (plus) / at the moved peak (minus)
+IV_LIFT = 1.2                   # the moved peak stands this factor above the curve's value at f0
 SIGMA_F = [0.04, 0.09, 0.14, 0.19, 0.24, 0.3, 0.0]     # multiples of the root's f0 (0: all windows peak on one sample)
 LWS = [60.0, 5.0, 20.0, 120.0]
 NWS = [20, 1, 5, 100]
@@ -86,7 +97,14 @@ def make_grid(name, f0):
     if name == "lin08":                       # no sample between f0/4 and f0
         ks = range(-1, 8)
         return [f0 * (1.0 + 0.8 * k) for k in ks], 1
+    if name == "edge5":
+        # irregular sampling with one sample 0.1 % inside and one 0.1 % outside either edge of the +-5 % band
+        # of criterion iv) (0.949 | 0.951 and 1.049 | 1.051), and samples between them and f0
+        return [f0 * x for x in EDGE5], EDGE5.index(1.0)
     raise KeyError(name)
+
+
+EDGE5 = [0.2, 0.3, 0.45, 0.6, 0.8, 0.9, 0.949, 0.951, 0.97, 1.0, 1.03, 1.049, 1.051, 1.1, 1.3, 1.7, 2.3, 3.0, 4.5]
 
 
 def _level(kind, a0, ratio):
@@ -136,13 +154,47 @@ def mean_curve(freq, p, a0, left, right, second):
     return out
 
 
-def std_curve(name, freq, t):
+def iv_target(name, freq, t):
+    """Sample the +sigma / -sigma peak is moved to by an iv_* standard-deviation curve, or None."""
+    _, _c, side, io = name.split("_")
+    ft = freq[t]
+    n = len(freq)
+    if side == "hi":
+        edge = 1.05 * ft
+        if io == "in":
+            c = [i for i in range(n) if ft < freq[i] < edge * (1 - 1e-6)]
+            return max(c) if c else None
+        c = [i for i in range(n) if freq[i] >= edge * (1 - 1e-6)]
+        return min(c) if c else None
+    edge = 0.95 * ft
+    if io == "in":
+        c = [i for i in range(n) if edge * (1 + 1e-6) < freq[i] < ft]
+        return min(c) if c else None
+    c = [i for i in range(n) if freq[i] <= edge * (1 + 1e-6)]
+    return max(c) if c else None
+
+
+def std_curve(name, freq, t, mean=None):
     """Standard-deviation curve; bumps and tilts are placed relative to sample t
-    (the peak the criteria will be evaluated on)."""
+    (the peak the criteria will be evaluated on).  None: the kind does not exist on this grid."""
     n = len(freq)
     if name in STD_CONST:
         return [STD_CONST[name]] * n
     ft = freq[t]
+    if name.startswith("iv_"):
+        j = iv_target(name, freq, t)
+        if j is None or not mean[j] > 0.0:
+            return None
+        d = math.log(IV_LIFT * mean[t] / mean[j])       # > 0: mean[t] is the highest value within the range
+        if not d > 0.0:
+            return None
+        if name[3] == "p":       # mean*exp(+s): sample j stands out, everything else keeps the mean's shape
+            out = [IV_FLOOR] * n
+            out[j] = IV_FLOOR + d
+        else:                    # mean*exp(-s): everything except sample j is pushed down
+            out = [IV_FLOOR + d] * n
+            out[j] = IV_FLOOR
+        return out
     if name.startswith("b_"):
         base, bump = math.log(1.5), math.log(3.5)
         idx = None
@@ -181,10 +233,33 @@ def std_curve(name, freq, t):
     return out
 
 
-def search_range(kind, freq, p, second):
+def search_range(kind, freq, p, second, order="asc"):
     """Search range in Hz, or 'invalid' when the kind makes no sense for the root."""
+    rng = _search_range(kind, freq, p, second)
+    if order == "asc" or rng == "invalid":
+        return rng
+    if kind not in TWO_SIDED:
+        return "invalid"
+    return (rng[1], rng[0])
+
+
+def _off_sample(freq, i, outward):
+    """A frequency whose nearest sample is i, 30 % of the way towards the next sample on the outward side."""
+    k = i + outward
+    if 0 <= k < len(freq):
+        return freq[i] + 0.3 * (freq[k] - freq[i])
+    return freq[i] * (1.0 + 0.1 * outward)
+
+
+def _search_range(kind, freq, p, second):
     f0 = freq[p]
     n = len(freq)
+    if kind in ("adj_lo", "adj_hi"):        # the sample next to the peak is the first / last one of the range
+        if p < 1 or p + 1 >= n:
+            return "invalid"
+        if kind == "adj_lo":
+            return (_off_sample(freq, p - 1, -1), f0 * 2.2)
+        return (f0 / 2.2, _off_sample(freq, p + 1, +1))
     if kind == "none":
         return (None, None)
     if kind == "wide":
@@ -261,7 +336,8 @@ class Root:
         self.freq, self.p = make_grid(root["grid"], root["f0"])
         assert self.freq[self.p] == root["f0"]
         self.second = root["second"]
-        self.rng = search_range(root["range"], self.freq, self.p, self.second)
+        self.order = root.get("order", "asc")
+        self.rng = search_range(root["range"], self.freq, self.p, self.second, self.order)
         self.valid = self.rng != "invalid"
         if self.valid:
             self.slices = RS.trim(self.freq, self.rng)
@@ -285,7 +361,9 @@ class Root:
         m, peaks = self.mean(a0, left, right)
         if any(pk is None for pk in peaks):
             return None
-        s = std_curve(std_name, self.freq, peaks[0])
+        s = std_curve(std_name, self.freq, peaks[0], m)
+        if s is None:
+            return "no_such_std"
         return m, s, [(lo, hi, pk) for (lo, hi), pk in zip(self.slices, peaks)]
 
     def clarity_static(self, key, m, s, interp):
@@ -323,12 +401,13 @@ def _union_sets(list_of_vectors):
 
 def _judge(ctx, root, fname, ncrit, acceptable, results, detail, exc_class):
     """Compare the three verbosity results of one case with the reference."""
+    tag = fname + (":reversed-range" if root.get("order", "asc") == "desc" else "")
     ok = []
     silent_raised = any(isinstance(out, tuple) and out and out[0] == "raised"
                         for v, (out, _text) in zip(VERBOSITY, results) if v < 2)
     for v, (out, _text) in zip(VERBOSITY, results):
         if isinstance(out, tuple) and out and out[0] == "raised":
-            key = f"C16:{fname}:{exc_class(v, silent_raised)}:raises"
+            key = f"C16:{tag}:{exc_class(v, silent_raised)}:raises"
             ctx.violation(key, root, detail=dict(detail, verbose=v),
                           expected=_sets_json(acceptable), observed=list(out),
                           explanation=f"{fname}(verbose={v}) raised {out[1]} ({out[2]}) where the "
@@ -337,7 +416,7 @@ def _judge(ctx, root, fname, ncrit, acceptable, results, detail, exc_class):
             continue
         vec = _as_verdicts(out, ncrit)
         if vec is None:
-            ctx.violation(f"C16:{fname}:malformed-return", root, detail=dict(detail, verbose=v),
+            ctx.violation(f"C16:{tag}:malformed-return", root, detail=dict(detail, verbose=v),
                           observed=repr(out)[:200],
                           explanation=f"{fname} did not return {ncrit} verdicts in {{0, 1}}")
             continue
@@ -347,7 +426,7 @@ def _judge(ctx, root, fname, ncrit, acceptable, results, detail, exc_class):
     v0, base = ok[0]
     for v, vec in ok[1:]:
         if vec != base:
-            ctx.violation(f"C16:{fname}:verbosity:verdicts-differ", root,
+            ctx.violation(f"C16:{tag}:verbosity:verdicts-differ", root,
                           detail=dict(detail, verbose=[v0, v]), expected=list(base), observed=list(vec),
                           explanation=f"{fname} returns different verdicts for verbose={v0} and verbose={v}")
     ctx.outcome((fname,) + base)
@@ -359,7 +438,7 @@ def _judge(ctx, root, fname, ncrit, acceptable, results, detail, exc_class):
             ctx.count("knife_edge")
             continue
         if base[c] not in acceptable[c]:
-            ctx.violation(f"C16:{fname}:criterion-{ROMAN[c]}:verdict", root,
+            ctx.violation(f"C16:{tag}:criterion-{ROMAN[c]}:verdict", root,
                           detail=dict(detail, verbose=v0), expected=_sets_json(acceptable),
                           observed=list(base),
                           explanation=f"{fname} criterion {ROMAN[c]}) verdict {base[c]} but the SESAME "
@@ -412,8 +491,11 @@ def run_root(root, ctx, tier):
     f0_root = root["f0"]
     rng = R.rng
     nfull = len(freq)
-    rinfo = dict(grid=root["grid"], range_kind=root["range"], second=root["second"])
-    rtag = f"{root['grid']}|{f0_root}|{root['second']}|{root['range']}"
+    rinfo = dict(grid=root["grid"], range_kind=root["range"], range_order=R.order, second=root["second"])
+    rtag = f"{root['grid']}|{f0_root}|{root['second']}|{root['range']}|{R.order}"
+    reversed_range = R.order == "desc"
+    if reversed_range:
+        assert rng[0] > rng[1]
 
     # ---------------- clarity ------------------------------------------
     mono_v = {}
@@ -423,6 +505,9 @@ def run_root(root, ctx, tier):
         cur = R.curves(*ckey)
         if cur is None:
             ctx.count("skipped_no_unique_peak")
+            continue
+        if cur == "no_such_std":
+            ctx.count("skipped_std_kind_not_on_grid")
             continue
         m, s, interp = cur
         fn_std = case["sf"] * f0_root
@@ -478,6 +563,18 @@ def run_root(root, ctx, tier):
         if any(f != freq[pk0] for f in infos[0]["f_plus"] + infos[0]["f_minus"]) and \
                 acceptable[3] == RS.PASS:
             ctx.count("cases_iv_pass_with_shifted_peak")
+        if len(acceptable[3]) == 1 and not any(i["sigma_peak_ambiguous"] for i in infos):
+            # a +-sigma peak within 0.3 % of an edge of the +-5 % band, the verdict being decided
+            for f in set(infos[0]["f_plus"] + infos[0]["f_minus"]):
+                x = f / freq[pk0]
+                for edge, side in ((0.95, "lo"), (1.05, "hi")):
+                    if 0.0 < abs(x - edge) <= 0.003:
+                        inside = (x > edge) if side == "lo" else (x < edge)
+                        ctx.count(f"cases_iv_sigma_peak_just_{'inside' if inside else 'outside'}_{side}_edge")
+        if reversed_range:
+            ctx.count("cases_reversed_range")
+        if any(pk - lo == 1 or hi - pk == 2 for lo, hi, pk in interp) and nfull != interp[0][1] - interp[0][0]:
+            ctx.count("cases_peak_next_to_range_limit" + ("_reversed" if reversed_range else ""))
         if base is not None:
             mono_v.setdefault(ckey, []).append((fn_std, base[4], case))
         n_cl += 1
@@ -508,6 +605,9 @@ def run_root(root, ctx, tier):
         cur = R.curves(*ckey)
         if cur is None:
             ctx.count("skipped_no_unique_peak")
+            continue
+        if cur == "no_such_std":
+            ctx.count("skipped_std_kind_not_on_grid")
             continue
         m, s, interp = cur
         lw, nw = case["lw"], case["nw"]
@@ -561,7 +661,7 @@ def run_root(root, ctx, tier):
 # ---------------------------------------------------------------------------
 # runner interface
 
-ROOT_SPACE = dict(grid=GRID_NAMES, f0=F0S, second=SECONDS, range=RANGES)
+ROOT_SPACE = dict(grid=GRID_NAMES, f0=F0S, second=SECONDS, range=RANGES, order=ORDERS)
 
 
 def roots(tier, seed):
@@ -570,6 +670,8 @@ def roots(tier, seed):
     for r in product.deviations(ROOT_SPACE, k):
         # drop combinations that have no meaning (cheap to re-check in run_root too)
         if r["range"] in ("excl_open", "excl_closed", "at_peak") and r["second"] == "none":
+            continue
+        if r["order"] == "desc" and r["range"] not in TWO_SIDED:
             continue
         out.append(dict(r))
     for f0 in ([1.0, 0.3] if tier == "quick" else F0S):
@@ -589,7 +691,10 @@ def finalize(ctx, tier):
                     missing.append(f"{fname} {ROMAN[i]}) = {val}")
     for name in ("knife_edge", "cases_f0_on_band_edge", "cases_empty_flank",
                  "cases_sigma_curve_without_peak", "cases_iv_pass_with_shifted_peak",
-                 "monotone_pairs", "knife_edge_trim_cases"):
+                 "monotone_pairs", "knife_edge_trim_cases", "cases_reversed_range",
+                 "cases_peak_next_to_range_limit", "cases_peak_next_to_range_limit_reversed",
+                 "cases_iv_sigma_peak_just_inside_lo_edge", "cases_iv_sigma_peak_just_outside_lo_edge",
+                 "cases_iv_sigma_peak_just_inside_hi_edge", "cases_iv_sigma_peak_just_outside_hi_edge"):
         if not c.get(name):
             missing.append(name)
     ctx.notes["vacuity_missing"] = missing
@@ -602,8 +707,11 @@ def finalize(ctx, tier):
 def describe(tier):
     cl, ck, rel, rk = _spaces(tier)
     return dict(
-        rule="roots: (grid in 6 geometric/linear grids built around f0, f0 in {0.1,0.2,0.3,0.5,0.7,1,1.5,2,3} Hz "
-             "exactly on a sample, second lower peak none/right/left, 9 search-range kinds) - "
+        rule="roots: (grid in 6 geometric/linear grids built around f0 plus one irregular grid with a sample 0.1 % inside "
+             "and 0.1 % outside either edge of the +-5 % band of clarity iv), f0 in {0.1,0.2,0.3,0.5,0.7,1,1.5,2,3} Hz "
+             "exactly on a sample, second lower peak none/right/left, 11 search-range kinds (two of them with the peak "
+             "right next to the first / last sample of the range), limits given as (low, high) or - ranges with two "
+             "numbers - as (high, low)) - "
              + ("all roots within 2 deviations of the default root" if tier == "quick" else "full product")
              + "; below each root clarity cases = all configurations of (A0, left flank, right flank, std curve, "
              f"sigma_f) within {ck} deviations of the default"
@@ -613,9 +721,13 @@ def describe(tier):
                 if rk is not None else "the full product of (2 flank pairs, constant and bump std curves, "
                                        "window length, count)")
              + "; every case is executed with verbose 0 (range as a tuple), 1 and 2 (range as a list that must afterwards "
-             "still hold what the caller wrote); flank kind 'shelf' = a peak of prominence 1e-7; a case is non-trivial/distinct by "
-             "(function, grid, f0, second peak, range kind, reference verdict sets)",
-        bounds=dict(grids=GRID_NAMES, f0=F0S, second=SECONDS, ranges=RANGES, a0=A0S, flanks=SIDES,
+             "still hold what the caller wrote); flank kind 'shelf' = a peak of prominence 1e-7; std curves iv_* move the "
+             "peak of mean*sigma_A or of mean/sigma_A (the other one stays at f0) to the grid sample nearest to the 0.95 f0 / "
+             "1.05 f0 edge on its inner or on its outer side (8 kinds; skipped where the grid has no such sample); "
+             "a case is non-trivial/distinct by "
+             "(function, grid, f0, second peak, range kind, order of the limits, reference verdict sets)",
+        bounds=dict(grids=GRID_NAMES, f0=F0S, second=SECONDS, ranges=RANGES, limit_orders=ORDERS,
+                    ranges_that_can_be_reversed=list(TWO_SIDED), edge5_grid_over_f0=EDGE5, a0=A0S, flanks=SIDES,
                     std_curves=STDS, sigma_f_over_f0=SIGMA_F, window_lengths=LWS, window_counts=NWS,
                     clarity_deviations=ck, reliability_deviations=rk if rk is not None else "full product",
                     root_deviations=2 if tier == "quick" else "full product"),
@@ -628,4 +740,7 @@ def describe(tier):
             "table rows are half-open bands [lo, hi); reliability iii uses 2 for f0 > 0.5 Hz and 3 otherwise",
             "a sample exactly on an interval limit, a value within 1e-9 of a threshold and a range limit "
             "equidistant between two samples are knife-edge: both verdicts are accepted (counter knife_edge)",
-            "sigma_A(f) = exp(std_curve(f)); a mean*sigma_A^(+-1) curve without interior peak fails criterion iv"])
+            "sigma_A(f) = exp(std_curve(f)); a mean*sigma_A^(+-1) curve without interior peak fails criterion iv",
+            "criterion iv: both peaks strictly between 0.95 f0 and 1.05 f0 (5 % of f0, the peak of the MEAN curve)",
+            "a search range is the set of frequencies between its two limits: (high, low) selects what (low, high) "
+            "selects (hvsrpy sorts the limits); a missing limit (None) is positional and is not turned round"])
